@@ -364,6 +364,19 @@ def other_case(ctx, case, monitors):
                 perm = torch.randperm(Km, generator=g_)
                 mem[b, s_] = row[perm]
         td_in["membership"] = mem
+    if case.get("family") == "coincident" and name == "flp":
+        # several locations at the same address (integer / grid data, de-duplicated customers): fewer distinct coordinates than
+        # facilities to open in half of the rows - distinct LOCATIONS can still be opened until the quota is reached
+        g_ = torch.Generator().manual_seed(seed + 5)
+        locs = td_in["locs"].clone()
+        Bf, Nf, _ = locs.shape
+        for b in range(Bf):
+            m = max(1, cfg["k"] - 1) if b % 2 == 0 else min(Nf, cfg["k"] + 1)
+            pts = locs[b, :m].clone()
+            locs[b] = pts[torch.randint(0, m, (Nf,), generator=g_)]
+        td_in["locs"] = locs
+        if "orig_distances" in td_in.keys():
+            td_in["orig_distances"] = (locs[:, :, None, :] - locs[:, None, :, :]).norm(dim=-1)
     if case.get("family") == "mixed_quota" and name in ("flp", "mcp"):
         key = "to_choose" if name == "flp" else "n_sets_to_choose"
         q = td_in[key].clone()
@@ -584,6 +597,15 @@ def other_case(ctx, case, monitors):
     if not ({"C08", "C03"} & monitors):
         return
     import math
+
+    if "C08" in monitors and hasattr(ep, "dead_end_at"):
+        # the episode ran out of offered items before a row reached its quota: it cannot "select exactly the required number"
+        for b in range(B):
+            if fins[b] is None:
+                acts = ep.executed(b)
+                ctx.evaluation()
+                ctx.violation(sig_of(cfg, rule="no_item_offered_before_quota", family=case.get("family", "gen")), f"after {len(acts)} of {insts[b]['k']} selections no item is offered any more although {len(ep.final_mask[b]) - len(set(acts)) if hasattr(ep, 'final_mask') else '?'} items are unselected", dict(row=b, inst=insts[b], actions=acts))
+                return
 
     for b in range(B):
         if fins[b] is None:
